@@ -53,7 +53,7 @@ CLAIMED = {
     "C19": dict(
         engine="factosim-exec",
         text="Seeded stateful exploration: histories of 2-8 operations (compile one of several programs - including edited versions of one program back to back - under options and a solver/routing fault plan, chdir, recompile) run inside one process per run, in interpreters started with different PYTHONHASHSEED values; after every compile the outcome class and the canonical logical circuit (positions, relay poles, numbering erased; WL colour-refinement hash of entity configurations + connector partition) are compared with a fresh-process, hash-seed-0, default-mode compile of the same source on the same tree. Reduced determinism self-test of the simulator itself is part of the quick tier.",
-        note="Trusted base: canonicalisation (isomorphic circuits always hash equal; collisions can only hide a difference). No golden files - the reference is recomputed from the current tree.",
+        note="Trusted base: canonicalisation (isomorphic circuits always hash equal; collisions can only hide a difference). No golden files - the reference is recomputed from the current tree (one reference interpreter per worker, hash seed 0, which never compiles itself: every reference job runs in a child forked from its pristine post-import state).",
         ref="DESIGN.md §8 C19",
     ),
     "C02": dict(
